@@ -27,9 +27,37 @@ def expectedGuards : List String :=
    "objectGoArrayReflect.swap: n := o.fieldsValue.Len(); i >= n || j >= n",
    "objectGoSlice.swap: n := len(*o.data); i >= n || j >= n",
    "Runtime.wrapReflectFunc.closure: value.IsNil()",
-   "argumentsObject.exportType: present"]
+   "argumentsObject.exportType: present",
+   "objectGoReflect.setReflectValue: re-points the cached field wrappers",
+   "objectGoArrayReflect.setReflectValue: re-points the cached element wrappers",
+   "valueArrayCache.shrink: detaches the cut-off wrappers",
+   "valueArrayCache.shrink: clears the cut-off slots",
+   "objectGoArrayReflect._putIdx: detaches the cached wrapper",
+   "objectGoArrayReflect._deleteIdx: detaches the cached wrapper",
+   "objectGoSliceReflect.grow: re-points the cached wrappers after re-allocation",
+   "objectGoSlice.grow: clears the re-exposed tail",
+   "objectGoSlice.shrink: clears the cut-off tail",
+   "objectExportCtx.putTyped: carries an earlier untyped entry into the per-type table",
+   "baseObject.export: caches before exporting the children",
+   "arrayObject.export: caches before exporting the children"]
 
 theorem guards_ok : guards = expectedGuards := by decide
+
+/-- decision order of Runtime.toReflectValue that `toReflectOwn` (Bridge.lean) and `expTo` (ExportTo.lean) transcribe -/
+def expectedToReflectOrder : List String :=
+  ["if typ == typeValue", "if typ == typeObject", "if typ == typeCallable", "if et == nil || et == reflectTypeNil",
+   "for: AssignableTo / ConvertibleTo / pointer-stripping loop", "if typ == typeTime",
+   "case reflect.String", "case reflect.Bool", "case reflect.Int", "case reflect.Int64", "case reflect.Int32",
+   "case reflect.Int16", "case reflect.Int8", "case reflect.Uint", "case reflect.Uint64", "case reflect.Uint32",
+   "case reflect.Uint16", "case reflect.Uint8", "case reflect.Float64", "case reflect.Float32",
+   "case reflect.Slice|reflect.Array", "case reflect.Map", "case reflect.Struct", "case reflect.Func", "case reflect.Ptr"]
+
+/-- the conditions of wrapReflectFunc's allocation and argument loop that `initIn` / `loopIn` (Gateway.lean) transcribe -/
+def expectedArgLoopConds : List String :=
+  ["alloc: l < nargs", "n >= nargs - 1 && typ.IsVariadic()", "n > nargs - 1", "n > nargs - 1"]
+
+theorem toReflect_order_ok : toReflectOrder = expectedToReflectOrder := by decide
+theorem arg_loop_conds_ok : argLoopConds = expectedArgLoopConds := by decide
 
 theorem toValue_type_cases_ok : toValueTypeCases = expectedTypeCases := by decide
 theorem toValue_kind_cases_ok : toValueKindCases = expectedKindCases := by decide
